@@ -203,7 +203,7 @@ def model_try_branch(ex, path, frame, callee, args, dest_ty):
     r = args[0]
     if not isinstance(r, Agg):
         return NotImplemented
-    is_opt = "Option<" in callee.split(" as ")[0]
+    is_opt = re.match(r"^<(std::option::|core::option::)?Option<", callee.strip()) is not None
     out = Agg(ex.ctx, None, dest_ty)
     d = r.get_disc()
     cont_idx, brk_idx = (1, 0) if is_opt else (0, 1)   # Option: Some=1 continues; Result: Ok=0 continues
@@ -1347,6 +1347,315 @@ def c03_row_sources(env, ob):
                 return (f"index_entry_not_derived_from_a_snapshot_read@{fn}", None)
             return None
         agg = merge(agg, trace_obligation(env, ob, ctx, res, bad, "a row source bypasses the snapshot-aware reader", cuts_ok=True))
+    return agg
+
+
+def _msi_chain(path, root):
+    """names of values derived from parameter `root` through Option::map / as_ref / clone (uninterpreted calls)"""
+    names = {root}
+    for e in path.events:
+        if re.search(r"Option::<.*>::(map|as_ref|clone|as_deref)", e["callee"]) or re.search(r"as Clone>::clone$", e["callee"]):
+            a0 = (e["argdesc"] or [""])[0].lstrip("&")
+            if any(a0 == n or a0.startswith(n + "@") or a0.startswith(n + ".") for n in names):
+                r = e["ret"]
+                rn = getattr(r, "name", None) or (getattr(r.cell.val, "name", None) if isinstance(r, Ref) else None)
+                if rn:
+                    names.add(rn.rstrip("*"))
+    return names
+
+
+def _msi_arm(ctx, f, path):
+    """which arm of maintain_secondary_indexes' match the path took: (arm, names derived from old row, from new row)"""
+    pnames = [n for n, _t in f.params]
+    olds, news, asgs = _msi_chain(path, pnames[2]), _msi_chain(path, pnames[3]), _msi_chain(path, pnames[4])
+
+    def disc(names):
+        for n in names:
+            for v in (0, 1):
+                if f"(= {ctx.smtname(n + '#d')} {bvconst(v, 64)})" in path.pc:
+                    return v
+        return None
+    o, n, a = disc(olds), disc(news), disc(asgs)
+    arm = {(0, 1, 0): "insert", (1, 0, 0): "delete", (1, 1, 1): "update"}.get((o, n, a))
+    return arm, olds, news
+
+
+@obligation(id="C06.index_entry_follows_update", also="C07", funcs="DmlExecutor::maintain_secondary_indexes",
+            bounds="every path of maintain_secondary_indexes for one index (loop unrolled once) in the UPDATE arm "
+                   "(old row, new row and assignments all present); callees uninterpreted",
+            native="c06_index_follows_update")
+def c06_index_update(env, ob):
+    """An index entry is keyed by the indexed column values.  When an UPDATE writes to an index at all, the entry for the
+    NEW row values must be built and written (otherwise lookups by the new value miss the row and uniqueness is enforced
+    on stale keys)."""
+    ctx, f, args, res = explore(env, "runtime/dml.rs", "maintain_secondary_indexes", sig=r"DmlExecutor", loop_bound=1)
+
+    def bad(path, rv):
+        if path.panics or rv is None:
+            return None
+        arm, olds, news = _msi_arm(ctx, f, path)
+        if arm != "update":
+            return None
+        writes = _evs(path, r"Btree::<.*>::(insert|update|upsert)$")
+        if not writes:
+            return None                                     # index left alone (skip decision: not judged here)
+        built = _evs(path, r"build_index_entry$")
+        from_new = [e for e in built if any((e["argdesc"][0].lstrip("&") == n or e["argdesc"][0].lstrip("&").startswith(n + "@")
+                                             or e["argdesc"][0].lstrip("&").startswith(n + ".")) for n in news)]
+        if not from_new:
+            return ("index_entry_for_the_new_values_is_never_built@update", ret_is_ok(rv))
+        return None
+    return trace_obligation(env, ob, ctx, res, bad, "UPDATE rewrites an index entry without building the entry of the new row values", cuts_ok=True)
+
+
+@obligation(id="C07.index_insert_replaces_dead_entries", also="C06", funcs="DmlExecutor::maintain_secondary_indexes",
+            bounds="every path of maintain_secondary_indexes for one index (loop unrolled once) in the INSERT arm; callees "
+                   "uninterpreted", native="c07_unique_enforced")
+def c07_index_insert(env, ob):
+    """The validator accepts a key whose existing index entry is invisible (deleted, or written by a rolled-back
+    transaction).  The INSERT arm must then make the entry point at the new row: it may leave a found entry alone only
+    after establishing that the entry is live - not deleted AND not created by an aborted transaction."""
+    ctx, f, args, res = explore(env, "runtime/dml.rs", "maintain_secondary_indexes", sig=r"DmlExecutor", loop_bound=1)
+
+    def bad(path, rv):
+        if path.panics or rv is None:
+            return None
+        arm, _o, _n = _msi_arm(ctx, f, path)
+        if arm != "insert":
+            return None
+        if not _evs(path, r"build_index_entry$") or not _evs(path, r"search_tuple$"):
+            return None
+        if _evs(path, r"Btree::<.*>::(insert|update|upsert)$"):
+            return None                                              # the entry was (re)written
+        got = _evs(path, r"get_tuple_at_unchecked$|with_cell_at")
+        if not got:
+            return None                                              # NotFound handled by the write above; nothing read
+        creator_checked = _evs(path, r"is_transaction_aborted$|parse_for_snapshot$|is_committed_before_snapshot$|is_valid_for_snapshot$|is_visible")
+        if not creator_checked:
+            return ("found_entry_kept_without_checking_its_creator_outcome@insert", ret_is_ok(rv))
+        return None
+    return trace_obligation(env, ob, ctx, res, bad, "INSERT keeps a found index entry although it may belong to a rolled-back transaction", cuts_ok=True)
+
+
+# ---------------------------------------------------------------------------------------------------------------------
+# C07: constraint decisions (NOT NULL / UNIQUE) and their place in the DML paths
+# ---------------------------------------------------------------------------------------------------------------------
+VALIDATOR = "runtime/validator.rs"
+
+
+def _evs(path, rx):
+    return [e for e in path.events if re.search(rx, e["callee"])]
+
+
+def _ret_ok_false(ctx, ev):
+    """SMT: the Result<bool,_> returned by this call is Ok(false) / Ok(true) / Ok"""
+    r = ev["ret"]
+    d = r.get_disc().term
+    b = r.variant_cell("Ok").val.field_cell("0", "bool").val.term
+    return f"(= {d} {bvconst(0, 64)})", b
+
+
+@obligation(id="C07.not_null_decision", funcs="ConstraintValidator::validate_not_null_constraints",
+            bounds="every path over <= 2 columns (the per-column decision is the loop body; more columns repeat it); "
+                   "Column.is_non_null, the value slice length and DataType::is_null are symbolic",
+            native="c07_not_null_enforced")
+def c07_not_null(env, ob):
+    """Per column: (is_non_null AND idx < values.len() AND values[idx].is_null()) <=> the statement is rejected here."""
+    ctx, f, args, res = explore(env, VALIDATOR, "validate_not_null_constraints", loop_bound=2)
+    k = env.struct_fields("schema/base.rs", "Column").index("is_non_null")
+
+    def iterations(path):
+        """[(nn_term|None, idx_term, isnull_term|None)] for every column the path looked at"""
+        out = []
+        evs = path.events
+        for i, e in enumerate(evs):
+            if not re.search(r"Enumerate<.*> as Iterator>::next$", e["callee"]):
+                continue
+            nm = e["ret"].name
+            nn = ctx.smtname(f"{nm}@Some.0.1*.{k}")
+            ix = ctx.smtname(f"{nm}@Some.0.0")
+            isn = None
+            for e2 in evs[i + 1:]:
+                if re.search(r"as Iterator>::next$", e2["callee"]):
+                    break
+                if re.search(r"DataType::is_null$", e2["callee"]):
+                    isn = e2["ret"].term
+            out.append((nn if nn in ctx.decls else None, ix if ix in ctx.decls else None, isn, e))
+        return out
+
+    def bad(path, rv):
+        if path.panics or rv is None:
+            return None
+        its = iterations(path)
+        lens = set(re.findall(r"\|len![0-9]+\|", " ".join(path.pc)))
+        ln = sorted(lens)[0] if lens else None
+        some = [it for it in its if f"(= {it[3]['ret'].get_disc().term} {bvconst(1, 64)})" in path.pc]
+        # columns that were passed over (all but the one at which a constructed Err is returned)
+        errv = rv.variants.get("Err")
+        constructed_err = errv is not None and isinstance(errv.val, Agg) and errv.val.name is None
+        passed = some[:-1] if (constructed_err and some) else some
+        disj_terms = []
+        for nn, ix, isn, _e in passed:
+            c = [nn or "true", (f"(bvult {ix} {ln})" if (ix and ln) else "true"), isn or "true"]
+            disj_terms.append(conj(c))
+        if disj_terms:
+            return ("null_accepted_in_not_null_column", disj(disj_terms))
+        return None
+
+    def bad_reject(path, rv):
+        if path.panics or rv is None:
+            return None
+        errv = rv.variants.get("Err")
+        if not (errv is not None and isinstance(errv.val, Agg) and errv.val.name is None):
+            return None
+        its = iterations(path)
+        if not its:
+            return ("rejected_without_looking_at_a_column", None)
+        nn, ix, isn, _e = its[-1]
+        if nn is None or isn is None:
+            return ("rejected_without_checking_nullability_and_value", None)
+        return ("non_null_value_or_nullable_column_rejected", f"(not (and {nn} {isn}))")
+    a = trace_obligation(env, ob, ctx, res, bad, "a NULL in a NOT NULL column is let through", cuts_ok=True)
+    b = trace_obligation(env, ob, ctx, res, bad_reject, "a row is rejected although the column is nullable or the value is not NULL", cuts_ok=True)
+    return merge(a, b)
+
+
+@obligation(id="C07.unique_decision", funcs="ConstraintValidator::validate_unique_constraints",
+            bounds="every path over <= 2 indexes; search_index uninterpreted (its own decision: C07.unique_probe)",
+            native="c07_unique_enforced")
+def c07_unique(env, ob):
+    """Ok <=> every index probe answered Ok(false); a probe answering Ok(true) rejects the statement."""
+    ctx, f, args, res = explore(env, VALIDATOR, "validate_unique_constraints", loop_bound=2)
+
+    def bad(path, rv):
+        if path.panics or rv is None:
+            return None
+        probes = _evs(path, r"search_index$")
+        isok = f"(= {rv.get_disc().term} {bvconst(0, 64)})"
+        conds = []
+        for e in probes:
+            okd, b = _ret_ok_false(ctx, e)
+            conds.append(f"(and {okd} {b})")
+        if conds:
+            return ("conflict_reported_by_the_probe_is_ignored", conj([isok, disj(conds)]))
+        return None
+
+    def bad2(path, rv):
+        if path.panics or rv is None:
+            return None
+        probes = _evs(path, r"search_index$")
+        iserr = f"(not (= {rv.get_disc().term} {bvconst(0, 64)}))"
+        conds = [iserr]
+        for e in probes:
+            okd, b = _ret_ok_false(ctx, e)
+            conds.append(f"(and {okd} (not {b}))")
+        return ("rejected_although_no_probe_found_a_conflict", conj(conds))
+    a = trace_obligation(env, ob, ctx, res, bad, "validate_unique_constraints returns Ok although a probe found a conflict", cuts_ok=True)
+    b = trace_obligation(env, ob, ctx, res, bad2, "validate_unique_constraints rejects although every probe said no conflict", cuts_ok=True)
+    return merge(a, b)
+
+
+@obligation(id="C07.unique_probe", funcs="ConstraintValidator::search_index,ConstraintValidator::search_index::{closure#0}",
+            bounds="every path of the probe closure and of search_index (key columns <= 1 loop iteration); B+tree search, "
+                   "TupleReader::parse_for_snapshot (decided by the C04 obligations) and HashSet::contains uninterpreted",
+            native="c07_unique_enforced")
+def c07_probe(env, ob):
+    """The probe reports a conflict exactly when the found index entry is visible to the statement's snapshot and is not
+    the row being updated: invisible (deleted / rolled back / changed away) entries never conflict, visible ones always."""
+    ctx, f, args, res = explore(env, VALIDATOR, "search_index::{closure#0}", loop_bound=1)
+
+    def vis_terms(path):
+        p = _evs(path, r"parse_for_snapshot$")
+        if not p:
+            return None
+        r = p[0]["ret"]
+        okd = f"(= {r.get_disc().term} {bvconst(0, 64)})"
+        some = f"(= {ctx.smtname(r.name + '@Ok.0#d')} {bvconst(1, 64)})"
+        return okd, some
+
+    def bad(path, rv):
+        if path.panics or rv is None:
+            return None
+        isok = f"(= {rv.get_disc().term} {bvconst(0, 64)})"
+        okv = rv.variants.get("Ok")
+        val = okv.val.fields["0"].val.term if okv is not None and isinstance(okv.val, Agg) and "0" in okv.val.fields else None
+        v = vis_terms(path)
+        if val is None:
+            return None
+        if v is None:
+            return ("probe_decides_without_a_snapshot_read", f"(and {isok} {val})")
+        okd, some = v
+        excl = [t for t in path.pc if t.startswith("(|in:")]     # the path took the `excluded_set.contains(row id)` branch
+        if val == "true":
+            return ("invisible_entry_reported_as_conflict", conj([isok, f"(not (and {okd} {some}))"]))
+        if val == "false" and not excl:
+            # without the self-exclusion branch a 'no conflict' verdict needs an invisible entry
+            return ("visible_entry_of_another_row_not_reported", conj([isok, okd, some]))
+        if val not in ("true", "false"):
+            return ("probe_verdict_is_not_a_decision_of_this_closure", isok)
+        return None
+    a = trace_obligation(env, ob, ctx, res, bad, "unique probe closure decides against the visibility of the entry")
+
+    # outer function: Found -> the closure's verdict is returned; NotFound / NULL key -> no conflict
+    ctx2, f2, args2, res2 = explore(env, VALIDATOR, "search_index", sig=r"ConstraintValidator", loop_bound=1)
+
+    def bad_outer(path, rv):
+        if path.panics or rv is None:
+            return None
+        w = _evs(path, r"with_cell_at")
+        s_ = _evs(path, r"Btree::<.*>::search$")
+        okv = rv.variants.get("Ok")
+        val = okv.val.fields["0"].val if okv is not None and isinstance(okv.val, Agg) and "0" in okv.val.fields else None
+        if val is None:
+            return None
+        if w:
+            # verdict must be the closure's
+            r = w[0]["ret"]
+            return None if "ret:" in val.term else ("probe_result_not_taken_from_the_visibility_closure", None)
+        if s_ and not w:
+            if mirsmt.const_of(val.term) != 0 and val.term != "false":
+                return ("conflict_reported_without_looking_at_the_entry", None)
+        return None
+    b = trace_obligation(env, ob, ctx2, res2, bad_outer, "search_index verdict", cuts_ok=True)
+    return merge(a, b)
+
+
+@obligation(id="C07.validated_before_write", funcs="DmlExecutor::insert,DmlExecutor::update,DmlExecutor::validate_insert_constraints,"
+            "DmlExecutor::validate_update_constraints",
+            bounds="every path of the four functions (loops unrolled once); callees uninterpreted",
+            native="c07_unique_enforced")
+def c07_before_write(env, ob):
+    """A row reaches the table tree / the log only after its constraints were validated successfully, and the validators
+    run the NOT NULL and the UNIQUE checks on the new values (the update excluding exactly the updated row)."""
+    agg = None
+    for fn, vrx in (("insert", r"validate_insert_constraints$"), ("update", r"validate_update_constraints$")):
+        ctx, f, args, res = explore(env, "runtime/dml.rs", fn, sig=r"DmlExecutor", loop_bound=1)
+
+        def bad(path, rv, fn=fn, vrx=vrx):
+            if path.panics or rv is None:
+                return None
+            w = [i for i, e in enumerate(path.events) if re.search(r"Btree::<.*>::(insert|update|upsert)$|log_insert$|log_update$", e["callee"])]
+            if not w:
+                return None
+            v = idx(path, vrx)
+            if not v or v[0] > w[0]:
+                return (f"write_before_constraint_validation@DmlExecutor::{fn}", None)
+            return None
+        agg = merge(agg, trace_obligation(env, ob, ctx, res, bad, "DML writes a row whose constraints were not validated first", cuts_ok=True))
+    for fn in ("validate_insert_constraints", "validate_update_constraints"):
+        ctx, f, args, res = explore(env, "runtime/dml.rs", fn, sig=r"DmlExecutor", loop_bound=1)
+
+        def bad(path, rv, fn=fn):
+            if path.panics or rv is None:
+                return None
+            isok = ret_is_ok(rv)
+            nn, un = idx(path, r"validate_not_null_constraints$"), idx(path, r"validate_unique_constraints$")
+            if not nn or not un:
+                return (f"validator_skips_a_check@{fn}", isok)
+            if fn == "validate_update_constraints" and not idx(path, r"HashSet::<u64.*>::insert$"):
+                return ("update_validation_does_not_exclude_the_updated_row", isok)
+            return None
+        agg = merge(agg, trace_obligation(env, ob, ctx, res, bad, "a validator returns Ok without running NOT NULL and UNIQUE checks", cuts_ok=True))
     return agg
 
 
